@@ -16,10 +16,11 @@ RULE = ('tree models (generator of C13) printed with random indentation, blank l
         'failing processor per load on a random object (Block/Leaf/Ref, abstract rule Item) or match (Val/Tag), raising (a) '
         'TextXError without location, (b) TextXError with its own full or partial location, (c) ValueError through '
         'textxerror_wrap. Oracle: filename of the file holding the text (None for strings), line/col of the start of the '
-        'object / match, nchar = object length for object processors; processor-supplied fields kept. distinct = (tree '
+        'object / match, nchar = object length for object processors; processor-supplied fields kept (variants: filename only, line+col, line only, nchar only, all four) and the missing ones filled from the processed text. distinct = (tree '
         'shape, target kind, raise variant, load kind); non-trivial = target not on the first line or in the imported file')
 REQUIRED = {'errors_checked': 500, 'object_processor_errors': 150, 'match_processor_errors': 100, 'own_location_kept': 50,
-            'wrapped_foreign_exceptions': 80, 'imported_file_errors': 40, 'string_loads': 50, 'nchar_checked': 100}
+            'wrapped_foreign_exceptions': 80, 'imported_file_errors': 40, 'string_loads': 50, 'nchar_checked': 100,
+            'partial_location_completed': 60}
 
 
 def pr(n, spans, ind, r, out):
@@ -142,7 +143,7 @@ def one(ctx, i, rep=None):
     cands = [(k, v) for k, v in spans[fi].items() if not k.startswith('root')]
     key, span = r.choice(cands)
     is_match = key.startswith(('val:', 'tag:'))
-    variant = r.choice(['plain', 'own_full', 'own_partial', 'wrapped'])
+    variant = r.choice(['plain', 'plain', 'own_full', 'own_partial', 'own_linecol', 'own_line', 'own_nchar', 'wrapped', 'wrapped'])
     node_kind = None
     if not is_match:
         node_kind = next(n['kind'] for n in T.all_nodes(roots[fi]) if n['name'] == key)
@@ -155,6 +156,12 @@ def one(ctx, i, rep=None):
             raise TextXError('processor says no', line=99, col=98, nchar=7, filename='own.file')
         if variant == 'own_partial':
             raise TextXError('processor says no', filename='own.file')
+        if variant == 'own_linecol':
+            raise TextXError('processor says no', line=99, col=98)
+        if variant == 'own_line':
+            raise TextXError('processor says no', line=99)
+        if variant == 'own_nchar':
+            raise TextXError('processor says no', nchar=7)
         raise ValueError('foreign failure')
 
     def objproc(o):
@@ -229,6 +236,11 @@ def one(ctx, i, rep=None):
     elif variant == 'own_partial':
         exp['filename'] = 'own.file'
         ctx.count('own_location_kept')
+    elif variant in ('own_linecol', 'own_line', 'own_nchar'):
+        # the supplied fields are kept, the others describe the processed text
+        exp.update({'own_linecol': {'line': 99, 'col': 98}, 'own_line': {'line': 99}, 'own_nchar': {'nchar': 7}}[variant])
+        ctx.count('own_location_kept')
+        ctx.count('partial_location_completed')
     elif variant == 'wrapped':
         ctx.count('wrapped_foreign_exceptions')
     got = {k: getattr(err, k, None) for k in exp}
@@ -245,7 +257,7 @@ def classify(bad, is_match, variant):
 
 
 def run(ctx):
-    for i in ctx.indices(1500 if ctx.tier == 'quick' else 40000, 'random'):
+    for i in ctx.indices(6000 if ctx.tier == 'quick' else 40000, 'random'):
         one(ctx, i)
 
 
